@@ -154,7 +154,7 @@ CLAIMED = {
     "C07": ("Lean 4 theorems on an executable model of KFL evaluation and kernel/scale constraints (histories as op lists) + "
             "differential correspondence on the real layer under random constraint histories + pairwise-monotonicity/bounds "
             "oracle",
-            "Theorems (Props/C07.lean, C07Fix.lean), all sizes/dims/terms/monotonicity subsets/bound modes: premises => output monotone in"
+            "Theorems (Props/C07.lean, C07Fix.lean, C07Shape.lean), all sizes/dims/terms/monotonicity subsets/bound modes: premises => output monotone in"
             " every increasing input and within bounds (output_monotone, output_bounded). Schedule classes proved: (i) any "
             "run ending in a pure constraint tail containing both calls, from any finite kernel and scale "
             "(constraints_any_order_establish_premises, finalize_constraints_establishes_premises); (ii) ANY run of raw "
@@ -167,7 +167,12 @@ CLAIMED = {
             " with SOk: kernel and scale constraint return the pair unchanged), kfl_feasible_fixed_runs "
             "(finalize_constraints() and every pure constraint run); both side conditions necessary (zero_scale_not_fixed, "
             "as the real code; loose_root_not_fixed, model-only); kfl_feasible_accepted (KOk and SOk => the KFL assert model"
-            " accepts at eps = 0).",
+            " accepts at eps = 0). Shape preservation (Props/C07Shape.lean; Shaped = kernel terms x dims x ls, scale terms): "
+            "kernelConstraint_shape, scaleConstraint_length, runOps_shaped (EVERY run of raw updates of the variable's shape "
+            "and constraint calls), finalizeConstraints_shaped, runValid_shaped, validRun_shaped, keras_training_shaped, "
+            "init_shaped, all sizes incl. 0; side conditions = what the real code guarantees (len(monotonicities) >= dims "
+            "when some dimension is monotone, one root factor per term), tight in the model (short_roots_truncate_terms, "
+            "short_monotonicities_truncate_dims).",
             "4/C07",
             "The property as quantified over ALL orders of updates and constraints is FALSE for the code: PropertyAllOrders "
             "is kept as a def with property_all_orders_false; kernel constraint, then a raw scale update to the opposite "
@@ -261,7 +266,7 @@ CLAIMED = {
             "as is, rank-2 keypoint_output_parameters with units > 1 is rejected (both required by upstream tests). "),
     "C12": ("Lean 4 iff-theorems (reduce_min/max <-> forall) on executable models of every assert_constraints + accept/reject"
             " differential on LP-generated feasible / single-violation / exact-threshold kernels",
-            "Theorems (Props/C12.lean, C12Units.lean, C12Norm.lean, C12Bridge.lean, C12Feasible.lean): accepts = true <-> every covered "
+            "Theorems (Props/C12.lean, C12Units.lean, C12Norm.lean, C12Bridge.lean, C12Feasible.lean, C12Linear.lean; C07Shape.lean): accepts = true <-> every covered "
             "constraint has slack >= -eps, for categorical, linear, PWL, all seven asserted lattice kinds incl. the trailing "
             "unit axis, KFL monotonicity and bounds (kfl_iff). Layer level: the call on the whole (n, units) kernel with the "
             "real reductions over the unit axis is accepted iff EVERY unit column is (categorical/linear/pwl_outputs/kfl "
@@ -274,11 +279,26 @@ CLAIMED = {
             "PWL incl. clamps (pwl_eps_iff, pwlFeasibleEps_zero_iff_c04; pwl_projection_accepted: what projectAll returns is "
             "accepted), categorical_eps_iff, lattice_eps_iff, KFL (kfl_eps_iff, kfl_zero_iff_c07: with the untested sign "
             "clause = C07's KOk and SOk; kfl_constraints_accepted). Coverage-gap counter-witnesses reproduced on the real "
-            "code: pwl_convexity_not_asserted, kfl_kernel_sign_not_asserted.",
+            "code: pwl_convexity_not_asserted, kfl_kernel_sign_not_asserted. Linear, every eps (Props/C12Linear.lean): "
+            "linear_eps_iff (acceptsLinear eps <-> LinFeasibleEps eps, every eps incl. 0 and negative, norm clause included; "
+            "only hypothesis one monotonicity per weight), linear_layer_eps_iff (all units), linFeasibleEps_mono, "
+            "linFeasibleEps_zero_iff (eps = 0: inequality clauses <-> C06's Meets with the projection's scalings; "
+            "monotonicities in {-1,0,1} and range pairs in range derived from acceptance), normFeasibleEps_zero_iff, "
+            "linear_projection_accepted (accepted configuration: what Linear.project returns passes every inequality clause "
+            "at eps = 0 and the WHOLE assert, norm order none / 1 / inf, at every eps > 0; at eps = 0 with order 1 / inf iff "
+            "the degenerate branch was taken). KFL without a shape hypothesis (Props/C07Shape.lean): "
+            "kfl_constraints_accepted_shape_free (shape of the INITIAL state only), kfl_fresh_then_constraints_accepted "
+            "(fresh layer, every draw value: none).",
             "4/C12",
             "coverage gaps of the real asserts (unimodality, KFL non-negativity with both / no bounds, PWL convexity) are "
-            "reported in evidence notes, not as violations; no bridge for the linear norm clause and no eps-relaxed form for "
-            "the linear asserts; kfl_constraints_accepted assumes the run keeps the full kernel shape. F-C12-e (learned keypoints judged at the initial keypoints) and F-C12-f (a keypoint equal to "
+            "reported in evidence notes, not as violations. Linear: two quirks of the real assert are proved and reproduced "
+            "on the real code (design_probes/c12lin_probe.py), neither a C12 violation because C12 quantifies over eps > 0: "
+            "unit_norm_rejected_at_zero (the norm clause is strict, a column of norm exactly 1 is rejected at eps = 0 and "
+            "accepted at every eps > 0) and negative_eps_unconstrained_rejected (eps < 0 with one constrained and one "
+            "unconstrained input rejects every kernel); open: order 2 in the composition (the model's project does not "
+            "normalise, linear_projection_accepted claims only the inequality clauses for it). The shape hypothesis of "
+            "kfl_constraints_accepted is discharged by Props/C07Shape.lean; what remains a modelling convention is one root "
+            "factor per term in a consK op and raw updates of the variable's shape. F-C12-e (learned keypoints judged at the initial keypoints) and F-C12-f (a keypoint equal to "
             "missing_input_value never judged) were found here and are fixed in /repo (57c7e1f, 164b31b); the harness ties "
             "the real call to the layer-level model. "),
     "C13": ("Lean 4 theorems over index-function tensors (reindexing by nodup bijection, List.Perm, induction) on code-shaped"
@@ -300,7 +320,7 @@ CLAIMED = {
             "(torsion_neg_list_witness, laplacian_neg_witness). "),
     "C17": ("Lean 4 theorems on executable models of _get_rtl_structure / random ensemble / pair cover / Crystals (randomness"
             " as explicit permutations) + differential correspondence with replayed permutations + oracle",
-            "Theorems (Props/C17.lean, C17Score.lean, C17ScorePos.lean), all sizes and ALL permutations/draws: RTL exact rank, every input used, usage counts "
+            "Theorems (Props/C17.lean, C17Score.lean, C17ScorePos.lean, C17ScoreIff.lean), all sizes and ALL permutations/draws: RTL exact rank, every input used, usage counts "
             "differ by <= 1, monotone wiring and output label (0 < #inputs from acceptance: rtl_accepted_has_inputs); random "
             "ensemble (rank, no repeats, coverage, totality under the code's preconditions); all-pairs cover complete for "
             "EVERY rank (pair_cover_any_rank; sizes <= rank for rank >= 2, exactly two features per lattice at rank <= 1); "
@@ -311,8 +331,11 @@ CLAIMED = {
             "cscore.norm / cscore.tl, harness stream cscore): scores computed from ANY prefitting kernels are >= 0 "
             "(scores_nonneg, discharging the torsion / empty-score hypotheses of crystals_structure), structure from kernels "
             "(crystals_from_kernels_structure, crystals_from_kernels_structure_of_kernels), scoring defined iff no constant "
-            "kernel (normalizeKernel_ok / normalizeKernel_constant, torsionsAndLaplacians_ok), positive importance from a "
-            "kernel that is not flat in the feature (importance_pos_of_not_flat, lapAt_eq_zero_iff), determinism through the "
+            "kernel (normalizeKernel_ok / normalizeKernel_constant, torsionsAndLaplacians_ok), importance score > 0 IFF some "
+            "prefitting kernel containing the feature is not flat in it (importance_pos_iff_not_flat, "
+            "importance_eq_zero_iff_all_flat = F-C17-a stated on the kernels; lapAt_eq_zero_iff, torAt_eq_zero_of_flat), the "
+            "structure theorem with hypotheses on the kernels only, NonFlatAt for every feature, plus argsort a descending "
+            "sort (crystals_from_kernels_structure_iff; counter-direction flat_feature_witness), determinism through the "
             "kernels only (crystals_from_kernels_congr, crystals_depends_on_kernels_only).",
             "4/C17",
             "NumPy's generator is a parameter of the determinism theorems; that the real code draws from a generator seeded "
@@ -320,8 +343,8 @@ CLAIMED = {
             "replaying RandomState(seed). Zero-score (or float-absorbed-score) features are known finding F-C17-a "
             "(crystals_zero_score_witness); a CONSTANT prefitting kernel makes the real score normalisation 0/0 (F-C17-b: "
             "found by the un-patched `crystals_real` stream; model: normalizeKernel_constant, "
-            "scoring_path_findings_witness). `0 < importance` REMAINS an explicit hypothesis of the structure theorem (the "
-            "converse of importance_pos_of_not_flat is not proved); the training that produces the prefitting kernels "
+            "scoring_path_findings_witness). `0 < importance` is no longer a hypothesis on computed scores: it is the kernel-level "
+            "condition NonFlatAt (importance_pos_iff_not_flat, crystals_from_kernels_structure_iff); the training that produces the prefitting kernels "
             "(parameter prefit seed cfg) and NumPy's argsort tie order (parameter argsort) are outside the model; float32 "
             "rounding of the regularizers is compared at rtol 1e-5 by the cscore stream; an RTL layer without "
             "inputs is outside the quantifier (rtl_no_inputs_raises); `no repeated feature inside a final Crystals lattice` "
